@@ -5,7 +5,7 @@ use common::Rng;
 
 use crate::keys::pool;
 use crate::lanes::{FailHow, LaneCtl, LaneSpec, MapOpText, SyncMode, LK};
-use crate::remote::Pace;
+use crate::remote::{CorruptHow, Pace, ReqKind};
 
 pub const UNKNOWN_LANES: [&str; 2] = ["nope", "zz9"];
 
@@ -42,6 +42,32 @@ pub enum Step {
     FinalIdle(u64),
     /// An HTTP request for a lane the agent does not have (work for the runtime's HTTP task only).
     Http,
+    /// A second two-way attachment under the routing id of the remote's attachment, on fresh channels, while
+    /// that attachment is still open (nothing happens when the remote has no open attachment). The remote's
+    /// later steps use the new channels; the reader of the old ones keeps draining.
+    AttachDup(usize),
+    /// Attach command-only channel `k` (`AgentAttachmentRequest::commander`), with its own routing id.
+    AttachOneWay(usize),
+    /// An envelope written to command-only channel `k` (a command, or - hostile - link / sync / unlink).
+    OneWay(usize, ReqKind, String, Bytes),
+    /// The writer of command-only channel `k` is dropped.
+    DropOneWay(usize),
+    /// The remote writes a request frame that does not decode (addressed to this lane name); it goes on as if
+    /// nothing had happened.
+    CorruptReq(usize, CorruptHow, String),
+}
+
+/// Which of the attachment-level faults a conversation of the extension parts contains.
+#[derive(Clone, Copy, Debug, Default, PartialEq, Eq)]
+pub struct Themes {
+    /// Overlapping attachments under one routing id.
+    pub dup: bool,
+    /// Command-only channels next to the two-way remotes.
+    pub oneway: bool,
+    /// Request frames that do not decode.
+    pub corrupt: bool,
+    /// Map events whose key is not valid UTF-8.
+    pub badkey: bool,
 }
 
 #[derive(Clone, Debug)]
@@ -64,6 +90,9 @@ pub struct Config {
     pub reporting: bool,
     /// The conversation has no stalled readers or lanes and no failing lanes: the inactivity rules (C17) apply.
     pub nothing_stalls: bool,
+    /// Number of command-only channels (extension parts only).
+    pub oneway: usize,
+    pub themes: Themes,
 }
 
 #[derive(Clone, Copy, Debug, PartialEq, Eq)]
@@ -82,7 +111,25 @@ pub enum Focus {
     Links,
     /// C17 at the runtime level: finite inactivity timeout, idle gaps around it, no stalled parties.
     Inactivity,
+    /// Extension (C03, C04, C20): overlapping attachments under one id, command-only channels, request frames
+    /// that do not decode, map keys that are not UTF-8 - any subset per conversation.
+    Attach,
+    /// Extension (C02): map lanes that emit keys that are not UTF-8 between ordinary operations.
+    BadKey,
+    /// Extension (C14): commands through command-only channels next to the commands of two-way remotes.
+    OneWay,
+    /// Extension (C17): the inactivity conversations with command-only channels as a further source of work.
+    InactivityOneWay,
 }
+
+impl Focus {
+    pub fn is_extension(&self) -> bool {
+        matches!(self, Focus::Attach | Focus::BadKey | Focus::OneWay | Focus::InactivityOneWay)
+    }
+}
+
+/// Key bytes that are not UTF-8 (a lone continuation byte, a truncated sequence, an overlong lead, inside quotes).
+pub const BAD_KEYS: [&[u8]; 4] = [&[0xf0, 0x28, 0x8c, 0x28], b"a\xff", &[0xc3], b"\"\x80\""];
 
 pub const CAPS: [usize; 7] = [2, 3, 5, 8, 16, 64, 4096];
 
@@ -149,9 +196,37 @@ impl<'a> Gen<'a> {
     }
 
     pub fn config(&mut self, focus: Focus) -> Config {
+        // (the existing focuses draw nothing here: their cases are what they were before the extension)
+        let themes = match focus {
+            Focus::Attach => {
+                let mut t = Themes { dup: self.rng.bool(), oneway: self.rng.bool(), corrupt: self.rng.bool(), badkey: self.rng.bool() };
+                if t == Themes::default() {
+                    match self.rng.below(4) {
+                        0 => t.dup = true,
+                        1 => t.oneway = true,
+                        2 => t.corrupt = true,
+                        _ => t.badkey = true,
+                    }
+                }
+                // One attachment-level defect per conversation keeps the findings apart: a non-UTF-8 key can
+                // take the writer of a remote away, overlapping attachments are about whose writer is whose.
+                if t.dup && t.badkey {
+                    if self.rng.bool() {
+                        t.dup = false;
+                    } else {
+                        t.badkey = false;
+                    }
+                }
+                t
+            }
+            Focus::BadKey => Themes { badkey: true, ..Themes::default() },
+            Focus::OneWay | Focus::InactivityOneWay => Themes { oneway: true, ..Themes::default() },
+            _ => Themes::default(),
+        };
         let remotes = match focus {
-            Focus::Protocol | Focus::Links => self.rng.range(1, 4) as usize,
+            Focus::Protocol | Focus::Links | Focus::Attach => self.rng.range(1, 4) as usize,
             Focus::Inactivity => self.rng.range(1, 3) as usize,
+            Focus::BadKey => self.rng.range(2, 3) as usize,
             _ => self.rng.range(1, 3) as usize,
         };
         let kinds: Vec<LK> = match focus {
@@ -190,6 +265,31 @@ impl<'a> Gen<'a> {
             Focus::Protocol | Focus::Links | Focus::Inactivity => {
                 let n = self.rng.range(2, 4);
                 (0..n).map(|_| *self.rng.pick(&[LK::Value, LK::Map, LK::Supply, LK::Command, LK::Value, LK::Map])).collect()
+            }
+            Focus::Attach | Focus::InactivityOneWay => {
+                let n = self.rng.range(2, 4);
+                let mut k: Vec<LK> = (0..n).map(|_| *self.rng.pick(&[LK::Value, LK::Map, LK::Supply, LK::Command, LK::Value, LK::Map])).collect();
+                if themes.badkey && !k.contains(&LK::Map) {
+                    k[0] = LK::Map;
+                }
+                k
+            }
+            Focus::BadKey => {
+                let mut k = vec![LK::Map];
+                if self.rng.bool() {
+                    k.push(LK::Map);
+                }
+                if self.rng.chance(1, 2) {
+                    k.push(*self.rng.pick(&[LK::Value, LK::Supply]));
+                }
+                k
+            }
+            Focus::OneWay => {
+                let mut k = vec![LK::Command, *self.rng.pick(&[LK::Command, LK::Value, LK::Map, LK::Supply])];
+                if self.rng.chance(1, 2) {
+                    k.push(*self.rng.pick(&[LK::Command, LK::Map, LK::Value]));
+                }
+                k
             }
         };
         let mut kinds = kinds;
@@ -266,15 +366,23 @@ impl<'a> Gen<'a> {
                     None
                 }
             }
-            Focus::Inactivity => {
+            Focus::Inactivity | Focus::InactivityOneWay => {
                 if self.rng.chance(1, 3) {
                     Some(*self.rng.pick(&[3u64, 7, 30]))
                 } else {
                     None
                 }
             }
+            Focus::Attach => {
+                if self.rng.chance(1, 3) {
+                    Some(*self.rng.pick(&[3u64, 10]))
+                } else {
+                    None
+                }
+            }
             _ => None,
         };
+        let inactivity = matches!(focus, Focus::Inactivity | Focus::InactivityOneWay);
         Config {
             lanes,
             remotes,
@@ -284,7 +392,7 @@ impl<'a> Gen<'a> {
             jitter_per_mille: *self.rng.pick(&[0u64, 0, 100, 300, 600]),
             agent_jitter_per_mille: *self.rng.pick(&[0u64, 0, 0, 200, 500]),
             prune_ms,
-            inactive_ms: if focus == Focus::Inactivity {
+            inactive_ms: if inactivity {
                 Some(*self.rng.pick(&[6u64, 12, 25]))
             } else if focus == Focus::Protocol && self.rng.chance(1, 8) {
                 Some(*self.rng.pick(&[15u64, 40]))
@@ -292,8 +400,10 @@ impl<'a> Gen<'a> {
                 None
             },
             key_classes,
-            reporting: focus == Focus::Links || self.rng.chance(1, 4),
-            nothing_stalls: focus == Focus::Inactivity,
+            reporting: focus == Focus::Links || matches!(focus, Focus::Attach | Focus::OneWay) || self.rng.chance(1, 4),
+            nothing_stalls: inactivity,
+            oneway: if themes.oneway { self.rng.range(1, 3) as usize } else { 0 },
+            themes,
         }
     }
 
@@ -312,6 +422,7 @@ impl<'a> Gen<'a> {
             Focus::Map => &[LK::Map],
             Focus::Sync => &[LK::Map, LK::Value],
             Focus::Supply => &[LK::Supply, LK::Command],
+            Focus::BadKey => &[LK::Map],
             _ => &[],
         };
         if !pref.is_empty() && self.rng.chance(4, 5) {
@@ -325,7 +436,7 @@ impl<'a> Gen<'a> {
     fn lane_name(&mut self, cfg: &Config, focus: Focus) -> String {
         let unknown = match focus {
             Focus::Protocol => 70,
-            Focus::Links | Focus::Sync => 40,
+            Focus::Links | Focus::Sync | Focus::Attach => 40,
             _ => 10,
         };
         if self.rng.below(1000) < unknown {
@@ -391,7 +502,283 @@ impl<'a> Gen<'a> {
         Step::Command(r, name, body)
     }
 
+    /// Body of a command envelope by source `src` for the lane called `name`.
+    fn command_body(&mut self, cfg: &Config, src: usize, name: &str) -> Bytes {
+        match cfg.lanes.iter().find(|l| l.name == name).map(|l| l.kind) {
+            Some(LK::Map) => {
+                if self.rng.chance(1, 20) {
+                    Bytes::from_static(b"@bogus(1)")
+                } else {
+                    Bytes::from(match self.map_op(cfg, src) {
+                        MapOpText::Update { key, value } => format!("@update(key:{key}) {value}"),
+                        MapOpText::Remove { key } => format!("@remove(key:{key})"),
+                        MapOpText::Clear => "@clear".to_string(),
+                    })
+                }
+            }
+            _ => self.body(src),
+        }
+    }
+
+    /// Scripts of the extension parts (`Focus::is_extension`): the ordinary steps of the other parts plus, by
+    /// theme, overlapping attachments, command-only channels, corrupt request frames and non-UTF-8 map keys.
+    fn script_ext(&mut self, focus: Focus, cfg: &Config, len: usize) -> Vec<Step> {
+        let th = cfg.themes;
+        let n = cfg.remotes;
+        let mut steps = vec![];
+        let mut attached = vec![false; n];
+        let mut gone = vec![false; n];
+        let mut corrupt = vec![false; n];
+        let mut ow_attached = vec![false; cfg.oneway];
+        let inactivity = focus == Focus::InactivityOneWay;
+        steps.push(Step::Attach(0));
+        attached[0] = true;
+        for l in 0..cfg.lanes.len() {
+            if self.rng.below(100) < 25 {
+                let m = match self.rng.below(3) {
+                    0 => SyncMode::Held,
+                    _ => SyncMode::Chunked(*self.rng.pick(&[1usize, 1, 2, 3])),
+                };
+                steps.push(Step::Lane(l, LaneCtl::SyncMode(m)));
+            }
+        }
+        if self.rng.chance(4, 5) {
+            let lane = self.lane_name(cfg, focus);
+            if self.rng.bool() {
+                steps.push(Step::Sync(0, lane));
+            } else {
+                steps.push(Step::Link(0, lane));
+            }
+        }
+        if cfg.oneway > 0 && self.rng.chance(2, 3) {
+            steps.push(Step::AttachOneWay(0));
+            ow_attached[0] = true;
+        }
+        // (link, sync, unlink, reader ctl, remote fault, settle, lane change, lane sync ctl, lane stall, lane fail, advance, agent return, stop)
+        let w: [u64; 13] = match focus {
+            Focus::BadKey => [60, 70, 25, 90, 8, 40, 330, 30, 10, 0, 0, 0, 0],
+            Focus::OneWay => [60, 30, 30, 60, 8, 40, 120, 10, 6, 0, 0, 0, 0],
+            Focus::InactivityOneWay => [90, 60, 70, 0, 20, 25, 150, 15, 30, 0, 160, 0, 0],
+            _ => [110, 90, 70, 50, 25, 70, 150, 30, 5, 10, 30, 3, 3],
+        };
+        // (overlapping attachment, command-only channel, corrupt request frame, non-UTF-8 key)
+        let tw: [u64; 4] = [
+            if th.dup { 45 } else { 0 },
+            if !th.oneway || cfg.oneway == 0 {
+                0
+            } else {
+                match focus {
+                    Focus::OneWay => 380,
+                    Focus::InactivityOneWay => 200,
+                    _ => 110,
+                }
+            },
+            if th.corrupt { 25 } else { 0 },
+            if !th.badkey {
+                0
+            } else if focus == Focus::BadKey {
+                90
+            } else {
+                50
+            },
+        ];
+        for _ in 0..len {
+            let r = self.rng.usize_below(n);
+            if !attached[r] {
+                steps.push(Step::Attach(r));
+                attached[r] = true;
+                continue;
+            }
+            if gone[r] {
+                if self.rng.chance(1, 3) {
+                    steps.push(Step::Attach(r));
+                    gone[r] = false;
+                    corrupt[r] = false;
+                }
+                continue;
+            }
+            let roll = self.rng.below(1000);
+            let mut acc = 0;
+            let mut pick = usize::MAX;
+            for (i, wi) in tw.iter().chain(w.iter()).enumerate() {
+                acc += wi;
+                if roll < acc {
+                    pick = i;
+                    break;
+                }
+            }
+            match pick {
+                0 => {
+                    // sometimes with a write to the old attachment under way: its reader stalls, the lane speaks
+                    if !inactivity && self.rng.chance(1, 3) {
+                        steps.push(Step::Stall(r));
+                        let l = self.focus_lane(cfg, focus);
+                        steps.push(self.lane_change(cfg, l, focus));
+                        if self.rng.bool() {
+                            let l = self.focus_lane(cfg, focus);
+                            steps.push(self.lane_change(cfg, l, focus));
+                        }
+                        steps.push(Step::Run(*self.rng.pick(&[1u32, 3, 12])));
+                    }
+                    steps.push(Step::AttachDup(r));
+                    corrupt[r] = false;
+                    match self.rng.below(6) {
+                        0 | 1 => steps.push(Step::Sync(r, self.lane_name(cfg, focus))),
+                        2 => steps.push(Step::Link(r, self.lane_name(cfg, focus))),
+                        3 => {
+                            let l = self.focus_lane(cfg, focus);
+                            steps.push(self.lane_change(cfg, l, focus));
+                        }
+                        4 => steps.push(Step::Unlink(r, self.lane_name(cfg, focus))),
+                        _ => {}
+                    }
+                }
+                1 => {
+                    let k = self.rng.usize_below(cfg.oneway);
+                    let src = 8 + k;
+                    if !ow_attached[k] {
+                        steps.push(Step::AttachOneWay(k));
+                        ow_attached[k] = true;
+                    } else {
+                        let cmd_share = if focus == Focus::Attach { 60 } else { 72 };
+                        let x = self.rng.below(100);
+                        if x < cmd_share {
+                            let name = self.lane_name(cfg, focus);
+                            let body = self.command_body(cfg, src, &name);
+                            steps.push(Step::OneWay(k, ReqKind::Command, name, body));
+                        } else if x < cmd_share + 12 {
+                            // a run of commands for one lane, back to back
+                            let name = self.lane_name(cfg, focus);
+                            for _ in 0..self.rng.range(3, 8) {
+                                let body = self.command_body(cfg, src, &name);
+                                steps.push(Step::OneWay(k, ReqKind::Command, name.clone(), body));
+                            }
+                        } else if x < cmd_share + 12 + if focus == Focus::Attach { 20 } else { 9 } {
+                            // hostile: an envelope that asks for an answer, on a channel that has no way back
+                            let kind = *self.rng.pick(&[ReqKind::Link, ReqKind::Sync, ReqKind::Sync, ReqKind::Unlink]);
+                            steps.push(Step::OneWay(k, kind, self.lane_name(cfg, focus), Bytes::new()));
+                        } else {
+                            steps.push(Step::DropOneWay(k));
+                            ow_attached[k] = false;
+                        }
+                    }
+                }
+                2 => {
+                    if !corrupt[r] {
+                        let how = *self.rng.pick(&CorruptHow::ALL);
+                        steps.push(Step::CorruptReq(r, how, self.lane_name(cfg, focus)));
+                        corrupt[r] = true;
+                        if how == CorruptHow::TruncatedThenClose {
+                            gone[r] = true;
+                        }
+                    }
+                }
+                3 => {
+                    if let Some(l) = self.lane_of_kind(cfg, &[LK::Map]) {
+                        let src = 16 + l;
+                        // a remote whose writer is certainly busy: its reader stalls and the lane speaks first
+                        if self.rng.chance(1, 3) {
+                            steps.push(Step::Stall(r));
+                            let op = self.map_op(cfg, src);
+                            steps.push(Step::Lane(l, LaneCtl::Map(op)));
+                            steps.push(Step::Run(*self.rng.pick(&[1u32, 3, 12])));
+                        } else if self.rng.chance(1, 3) {
+                            // every writer certainly idle
+                            steps.push(Step::Quiesce);
+                        }
+                        let key = Bytes::from_static(*self.rng.pick(&BAD_KEYS));
+                        let value = if self.rng.chance(3, 4) { Some(self.map_value(src)) } else { None };
+                        steps.push(Step::Lane(l, LaneCtl::MapBadKey { key, value }));
+                        // ordinary operations follow: they must still arrive everywhere
+                        for _ in 0..self.rng.range(0, 3) {
+                            let op = self.map_op(cfg, src);
+                            steps.push(Step::Lane(l, LaneCtl::Map(op)));
+                        }
+                    }
+                }
+                4 => steps.push(Step::Link(r, self.lane_name(cfg, focus))),
+                5 => steps.push(Step::Sync(r, self.lane_name(cfg, focus))),
+                6 => steps.push(Step::Unlink(r, self.lane_name(cfg, focus))),
+                7 => match self.rng.below(3) {
+                    0 => steps.push(Step::Stall(r)),
+                    1 => steps.push(Step::Unstall(r)),
+                    _ => steps.push(Step::SetPace(r, Pace { chunk: *self.rng.pick(&[1usize, 2, 5, 64, 4096]), yields: *self.rng.pick(&[0u32, 1, 5, 30]) })),
+                },
+                8 => {
+                    match self.rng.below(4) {
+                        0 | 1 => steps.push(Step::DropReader(r)),
+                        2 => steps.push(Step::DropRemote(r)),
+                        _ => steps.push(Step::DropWriter(r)),
+                    }
+                    gone[r] = true;
+                }
+                9 => {
+                    steps.push(Step::Settle);
+                    if matches!(focus, Focus::Attach | Focus::OneWay) && self.rng.chance(1, 2) {
+                        // a pure phase: only agent-side events between two checkpoints
+                        for _ in 0..self.rng.range(1, 5) {
+                            let l = self.rng.usize_below(cfg.lanes.len());
+                            steps.push(self.lane_change(cfg, l, focus));
+                        }
+                        steps.push(Step::Settle);
+                    }
+                }
+                10 => {
+                    let l = self.focus_lane(cfg, focus);
+                    steps.push(self.lane_change(cfg, l, focus));
+                }
+                11 => {
+                    let l = self.focus_lane(cfg, focus);
+                    match self.rng.below(5) {
+                        0 => steps.push(Step::Lane(l, LaneCtl::SyncMode(SyncMode::Held))),
+                        1 => steps.push(Step::Lane(l, LaneCtl::SyncMode(SyncMode::Chunked(*self.rng.pick(&[1usize, 2, 4]))))),
+                        2 => steps.push(Step::Lane(l, LaneCtl::SyncMode(SyncMode::Atomic))),
+                        3 => steps.push(Step::Lane(l, LaneCtl::SyncStep(self.rng.range(1, 4) as usize))),
+                        _ => steps.push(Step::Lane(l, LaneCtl::FlushSyncs)),
+                    }
+                }
+                12 => {
+                    let l = self.focus_lane(cfg, focus);
+                    steps.push(Step::Lane(l, LaneCtl::Stall(self.rng.chance(2, 3))));
+                }
+                13 => {
+                    let l = self.rng.usize_below(cfg.lanes.len());
+                    let how = *self.rng.pick(&[FailHow::CorruptTag, FailHow::CorruptTag, FailHow::Truncated, FailHow::CloseWriter]);
+                    steps.push(Step::Lane(l, LaneCtl::Fail(how)));
+                }
+                14 if inactivity => {
+                    let t = cfg.inactive_ms.unwrap_or(10);
+                    steps.push(Step::Advance(*self.rng.pick(&[1, 1, 2, t / 3, t / 3, t / 2, t / 2, t - 1, t - 1, t, t + 1, 2 * t])));
+                }
+                14 => steps.push(Step::Advance(*self.rng.pick(&[1u64, 3, 10, 30]))),
+                15 => {
+                    steps.push(Step::AgentReturn(self.rng.bool()));
+                    break;
+                }
+                16 => {
+                    steps.push(Step::StopAgent);
+                    break;
+                }
+                _ => steps.push(self.remote_command(cfg, r, focus)),
+            }
+            match self.rng.below(100) {
+                0..=29 => {}
+                30..=54 => steps.push(Step::Run(1)),
+                55..=74 => steps.push(Step::Run(3)),
+                75..=89 => steps.push(Step::Run(12)),
+                _ => steps.push(Step::Quiesce),
+            }
+        }
+        if inactivity && !matches!(steps.last(), Some(Step::AgentReturn(_)) | Some(Step::StopAgent)) {
+            steps.push(Step::FinalIdle(5 * cfg.inactive_ms.unwrap_or(10) + 5));
+        }
+        steps
+    }
+
     pub fn script(&mut self, focus: Focus, cfg: &Config, len: usize) -> Vec<Step> {
+        if focus.is_extension() {
+            return self.script_ext(focus, cfg, len);
+        }
         let mut steps = vec![];
         let n = cfg.remotes;
         let mut attached = vec![false; n];
@@ -432,6 +819,8 @@ impl<'a> Gen<'a> {
             // no stalled readers, no failing lanes; a lane may stop taking requests for a while (the read task
             // then blocks in the middle of delivering a command)
             Focus::Inactivity => [110, 70, 90, 0, 25, 25, 180, 20, 35, 0, 160, 0, 0],
+            // (the extension parts have their own generator, `script_ext`)
+            Focus::Attach | Focus::BadKey | Focus::OneWay | Focus::InactivityOneWay => [0; 13],
         };
         for _ in 0..len {
             let r = self.rng.usize_below(n);
